@@ -11,7 +11,7 @@ RANGE = re.compile(r"@\d+\.\.\d+")
 class C13(Property):
     id = "C13"
     design_ref = "DESIGN.md section 5 / C13"
-    theorems_note = ("tao_total (inside start <= off <= end the unwrap, the assert and the unreachable! of token_at_offset are never hit, "
+    theorems_note = ("tao_complete (EVERY non-empty token below the node that touches the offset is in the answer: Single means exactly one such token), tao_left_right / tao_iterator / tao_bias_meaning (the TokenAtOffset helper: biases = first/last of the tokens found, the iterator yields exactly them with exact size hints), tao_total (inside start <= off <= end the unwrap, the assert and the unreachable! of token_at_offset are never hit, "
                      "including with empty nodes and zero-length tokens), tao_spec (None iff empty text; Single = the unique non-empty token "
                      "touching the offset; Between = the two that meet there), cover_total / cover_spec (covering_element returns an element "
                      "of the subtree containing the range, none of whose children contains it)")
